@@ -23,8 +23,11 @@ func (muxStream) Rule() string {
 }
 
 var (
+	// (the last two of each: case variants outside ASCII, where lower-casing and case folding differ - final sigma,
+	// long s; the Lean model folds ASCII only and skips tables with such criteria, the reference oracle judges them)
 	muxBases   = []string{"", "dc=example,dc=org", "DC=EXAMPLE,DC=ORG", "ou=people,dc=example,dc=org"}
 	muxFilters = []string{"", "(cn=alice)", "(CN=ALICE)", "(uid=bob)"}
+	muxUniBases = []string{"OU=ΣΎΛΛΟΓΟΣ,dc=example,dc=org", "ou=σύλλογος,dc=example,dc=org"}
 	muxNames   = []string{"1.3.6.1.4.1.1466.20037", "1.3.6.1.4.1.4203.1.11.3", "1.2.3"}
 )
 
@@ -39,6 +42,9 @@ func allRouteSpecs() []string {
 	}
 	for _, n := range muxNames {
 		out = append(out, "e:"+hx([]byte(n)))
+	}
+	for _, b := range muxUniBases {
+		out = append(out, fmt.Sprintf("s:%s:%s:0", hx([]byte(b)), hx(nil)))
 	}
 	return out
 }
@@ -55,6 +61,9 @@ func allMuxRequests() []Req {
 	}
 	for _, n := range append(muxNames, "9.9") {
 		rs = append(rs, Req{Kind: "extended", ID: 5, Name: n})
+	}
+	for _, b := range muxUniBases {
+		rs = append(rs, Req{Kind: "search", ID: 4, DN: b, Scope: 2, Filter: "(cn=alice)"})
 	}
 	rs = append(rs, Req{Kind: "modify", ID: 6, DN: "cn=a"}, Req{Kind: "add", ID: 7, DN: "cn=a"}, Req{Kind: "delete", ID: 8, DN: "cn=a"})
 	return rs
@@ -223,10 +232,10 @@ func refMatch(spec string, r *gldap.Request) bool {
 			return false
 		}
 		base, filter := string(unhx(f[1])), string(unhx(f[2]))
-		if base != "" && strings.ToLower(base) != strings.ToLower(m.BaseDN) {
+		if base != "" && !strings.EqualFold(base, m.BaseDN) {
 			return false
 		}
-		if filter != "" && strings.ToLower(filter) != strings.ToLower(m.Filter) {
+		if filter != "" && !strings.EqualFold(filter, m.Filter) {
 			return false
 		}
 		return f[3] == "0" || f[3] == fmt.Sprint(int64(m.Scope))
